@@ -111,6 +111,10 @@ def gen(seed: int, i: int, tier: str) -> dict:
         scn["tapes"] = {"w.fail.set": [rng.choice([0, 1, 2]) for _ in range(3)]}
         if rng.random() < 0.4:
             scn["switch_to"] = rng.choice([p for p in G.PROTOS_2X if p != proto])
+        scn["noise"] = [rng.choice(["0;255;3;0;14;Gateway startup complete.\n", "0;255;3;0;9;log\n", f"0;255;3;0;2;{proto}\n",
+                                    "9;255;0;0;17;2.0\n", "255;255;3;0;3;\n", "2;0;0;0;3;c\n", "2;1;1;0;2;1\n",
+                                    "2;255;3;0;0;50\n", "2;0;2;0;47;\n", "1;255;3;0;6;\n"])
+                        for _ in range(rng.randint(0, 4))]
     return scn
 
 
@@ -225,6 +229,9 @@ def _batch(scn, proto, res):
                 lines[(f[0], f[1], f[4])] = encode(tuple(f))
         written = []
         failed_any = False
+        for noise in scn.get("noise", []):
+            w.listen_step(noise)
+            res.probes["traffic_while_held"] += 1
         if scn.get("switch_to"):
             # the gateway was updated between parking and the wake: held messages must survive
             proto = scn["switch_to"]
